@@ -27,7 +27,7 @@ theorem hashPhase_total (t : SymTab) (ht : TabOk t) (hsmall : ∀ h, t.hash = so
     rw [hr1]
     dsimp only
     by_cases hc : tq_sym_hash_is_gnu h.stype = true
-    · rw [if_pos hc]; exact gnuLookup_total t ht h hs (hsmall h hh) name r1.2
+    · rw [if_pos hc, TQTie.gnuLookupT_dispatch]; exact gnuLookup_total t ht h hs (hsmall h hh) name r1.2
     · rw [if_neg hc]; exact ⟨_, rfl⟩
 
 /-- `get_symbol(name, …)` : hash phase, then the linear fallback over `get_symbols_num()` entries -/
